@@ -126,3 +126,14 @@ def _(self, data: Map('str', Val), separator: Str, indent: Int) -> Str:
 def _(self, data: ValSeq, separator: Str, indent: Int) -> Str:
     raises(EncodeError)
     loop(0, invariant=[True])
+
+
+@contract("BitString.encode", props=["C20"])
+def _(self, data: Tup(Bytes, Nat), _separator: Str, _indent: Int) -> Str:
+    # RFC 3641 3.5 bstring: a quote, exactly one binary digit per bit of the value, a quote and the letter B
+    requires(data[1] <= 8 * len(data[0]))
+    use(be_val_bound(data[0]))
+    use(pow2_add(8 * len(data[0]), 7))
+    use(pow2_add(8 * len(data[0]), 8))
+    use(blen_exact(be_val(list(data[0])) + 128 * pow2(8 * len(data[0])), 8 * len(data[0]) + 8))
+    ensures(len(result) == data[1] + 3)
